@@ -238,6 +238,12 @@ func (b *backend) GetPartitions(ctx context.Context, r *proto.ListPartitionReque
 
 	for idx, p := range partitions {
 		// append range start of partition only
+		if idx != 0 {
+			// an engine border may fall between the versions of one raw key: advertise the border
+			// of that key's index record instead (as the scanner does for its own workers), so that
+			// streaming the advertised partitions one by one sees every raw key in exactly one of them
+			p.Start = b.alignPartitionBorder(p.Start)
+		}
 		resp.PartitionKeys = append(resp.PartitionKeys, p.Start)
 
 		// append last end of partition
@@ -246,6 +252,20 @@ func (b *backend) GetPartitions(ctx context.Context, r *proto.ListPartitionReque
 		}
 	}
 	return resp, nil
+}
+
+// alignPartitionBorder moves a border that is an object key with a non-zero revision back to the
+// revision (index) key of the same raw key; anything else is left alone
+func (b *backend) alignPartitionBorder(border []byte) []byte {
+	// magic + split byte + revision
+	if len(border) < 13 {
+		return border
+	}
+	userKey, revision, err := b.coder.Decode(border)
+	if err == nil && revision != 0 {
+		return b.coder.EncodeRevisionKey(userKey)
+	}
+	return border
 }
 
 // ListByStream implements Backend interface
